@@ -140,6 +140,7 @@ class Handler:
     body_fn: str                     # w::h / w::h_o / w::h_r / w::ah / w::ah_r
     pre: str = ''                    # nested invocation evaluated inside the handler body (macro form)
     pre_ref: str = ''
+    def_ev: Optional[int] = None     # handler written as a block `{ w::cap(ev); |..| .. }`: the handler EXPRESSION is evaluated once, up front
 
 
 @dataclass
@@ -1141,6 +1142,12 @@ def gen_handler(ctx, inv, n_branches):
     ctx.evs.append(EvMeta(e, 'Handler', failable, inv.inv, CALLER, STEP_HANDLER))
     pos = ctx.rng.randint(0, n_branches) if ctx.chance(p.get('handler_anywhere', 0.3)) else n_branches
     h = Handler(kind, e, pos, fn)
+    if ctx.chance(p.get('handler_block', 0.3)):
+        # the handler expression itself is user code: evaluated exactly once, before step 0, also when a step fails
+        de = ctx.next_ev
+        ctx.next_ev += 1
+        ctx.evs.append(EvMeta(de, 'Call', False, inv.inv, CALLER, 0))
+        h.def_ev = de
     if ctx.nest_budget > 0 and ctx.chance(p.get('nest_handler', 0.0)):
         ks = nested_kinds_for(ctx, inv.is_async, 'handler')
         saved = (ctx.cur_inv, ctx.cur_branch, ctx.cur_step)
@@ -1292,7 +1299,10 @@ def handler_macro(inv, h):
     n = len(inv.branches)
     params = ', '.join('a%d' % i for i in range(n))
     args = ', '.join('w::dg(&a%d)' % i for i in range(n))
-    return '%s => |%s| { %s%s(%d, &[%s]) }' % (h.kind, params, h.pre, h.body_fn, h.ev, args)
+    clos = '|%s| { %s%s(%d, &[%s]) }' % (params, h.pre, h.body_fn, h.ev, args)
+    if h.def_ev is not None:
+        return '%s => { w::cap(%d); %s }' % (h.kind, h.def_ev, clos)
+    return '%s => %s' % (h.kind, clos)
 
 
 def macro_body(inv):
@@ -1311,6 +1321,8 @@ def ref_expr(inv, top=False):
     L = []
     ig = 'ig%d' % inv.inv
     L.append('let %s = w::inv_enter(%d);' % (ig, inv.inv))
+    if inv.handler is not None and inv.handler.def_ev is not None:
+        L.append('w::seg(&%s, %d, 0, || w::cap(%d));' % (ig, CALLER, inv.handler.def_ev))
     maxd = max(len(b.steps) for b in inv.branches)
     A = inv.is_async
     for k in range(maxd):
